@@ -157,6 +157,9 @@ def thorough_entries():
             sp, sparams, spre = node.spec()
             ve, vparams, vpre = node.value("v")
             we, wparams, wpre = node.value("w")
+            # the schema itself must be generable (an unsatisfiable member / the empty alphabet of known finding F15 would make
+            # fake(S % v) raise for reasons that have nothing to do with substitution)
+            spre = spre + {"str": ["lk >= 0"], "alpha": ["len(lal) >= 1"]}.get(lf, [])
             out.append(e("gen2.%s.%s" % (f, lf), ", ".join(sparams + vparams + wparams), sp, ve, we, pre=spre + vpre + wpre,
                          timeout=120, tier="thorough", covers=("subst",), chars=(lf in ("str", "alpha"))))
     return out
